@@ -3646,8 +3646,14 @@ private:
       basic_block_t &parent = get_parent(curId);
       basic_block_t &child = get_child(curId);
 
-      // Merge with its parent if it's its only child.
-      if (has_one_child(parent.label())) {
+      // Merge with its parent if it's its only child. The entry
+      // block cannot be folded into its parent because it must be
+      // kept (e.g., the entry block is the head of a loop). Nothing
+      // can be appended to the exit block because the executions
+      // of the CFG finish at its end.
+      if (curId != entry() &&
+          !(has_exit() && exit() == parent.label()) &&
+          has_one_child(parent.label())) {
         // fold cur into parent
         parent.copy_back(cur);
         visited.erase(curId);
